@@ -21,9 +21,13 @@ type c19Config struct {
 	FailAt int    // 1-based failing middleware, 0 = none
 	Auth   bool   // cleartext auth
 	Hook   string // absent | ok | error
+	NilCtx bool   // the failing middleware returns (nil, err) instead of (ctx, err)
 }
 
 func (c c19Config) String() string {
+	if c.NilCtx {
+		return fmt.Sprintf("middlewares=%d failing=%d (returning a nil context with its error) auth=%v terminate_hook=%s", c.M, c.FailAt, c.Auth, c.Hook)
+	}
 	return fmt.Sprintf("middlewares=%d failing=%d auth=%v terminate_hook=%s", c.M, c.FailAt, c.Auth, c.Hook)
 }
 
@@ -121,6 +125,9 @@ func c19Run(cfg c19Config, hist []c19Letter, oneSegment bool) explore.Result {
 				st.problems = append(st.problems, fmt.Sprintf("middleware %d: client/server parameters missing from its context", i))
 			}
 			if i == cfg.FailAt {
+				if cfg.NilCtx {
+					return nil, errors.New("middleware refuses the session")
+				}
 				return ctx, errors.New("middleware refuses the session")
 			}
 			return context.WithValue(ctx, mwKey(i), fmt.Sprintf("set-by-mw%d", i)), nil
@@ -350,7 +357,7 @@ func init() {
 		ID:          "C19",
 		Level:       "model_checking",
 		Technique:   "exhaustive enumeration of (middleware count, failing position, auth, terminate hook) configurations x command histories x delivery mode on a real server, judged by a lifecycle reference machine with context probes inside every callback",
-		Rule:        "m in 0..3 middlewares, failing position none|1..m, auth none|cleartext, terminate hook absent|ok|error (60 configurations) x all histories of length <= d over {Query ok, Query err, Parse+Bind+Execute+Sync, a failing Bind without Sync, Terminate, EOF} x {message by message, one segment}",
+		Rule:        "m in 0..3 middlewares, failing position none|1..m (returning its context or a nil context with the error), auth none|cleartext, terminate hook absent|ok|error (60 configurations) x all histories of length <= d over {Query ok, Query err, Parse+Bind+Execute+Sync, a failing Bind without Sync, Terminate, EOF} x {message by message, one segment}",
 		Assumptions: []string{"context cancellation is observed at the next quiescence on the retained context"},
 		Enumerate:   c19Enumerate,
 		Bounds: func(tier string) map[string]any {
@@ -443,27 +450,32 @@ func c19Enumerate(tier string, emit explore.Emit) {
 		for fail := 0; fail <= m; fail++ {
 			for _, auth := range []bool{false, true} {
 				for _, hook := range []string{"absent", "ok", "error"} {
-					cfg := c19Config{M: m, FailAt: fail, Auth: auth, Hook: hook}
-					forShapes(len(letters), c19Depth(tier), func(sh []int) {
-						hist := make([]c19Letter, len(sh))
-						for i, s := range sh {
-							hist[i] = letters[s]
-							if i > 0 && hist[i-1].Name == "EOF" {
-								return // nothing can follow the end of input
-							}
+					for _, nilCtx := range []bool{false, true} {
+						if nilCtx && (fail == 0 || hook == "ok") {
+							continue
 						}
-						for _, seg := range []bool{false, true} {
-							seg := seg
-							if seg && len(hist) < 2 {
-								continue
+						cfg := c19Config{M: m, FailAt: fail, Auth: auth, Hook: hook, NilCtx: nilCtx}
+						forShapes(len(letters), c19Depth(tier), func(sh []int) {
+							hist := make([]c19Letter, len(sh))
+							for i, s := range sh {
+								hist[i] = letters[s]
+								if i > 0 && hist[i-1].Name == "EOF" {
+									return // nothing can follow the end of input
+								}
 							}
-							emit(explore.Case{Family: "lifecycle", Size: len(hist),
-								Desc: func() any {
-									return map[string]any{"config": cfg.String(), "history": c19Names(hist), "one_segment": seg}
-								},
-								Run: func() explore.Result { return c19Run(cfg, hist, seg) }})
-						}
-					})
+							for _, seg := range []bool{false, true} {
+								seg := seg
+								if seg && len(hist) < 2 {
+									continue
+								}
+								emit(explore.Case{Family: "lifecycle", Size: len(hist),
+									Desc: func() any {
+										return map[string]any{"config": cfg.String(), "history": c19Names(hist), "one_segment": seg}
+									},
+									Run: func() explore.Result { return c19Run(cfg, hist, seg) }})
+							}
+						})
+					}
 				}
 			}
 		}
